@@ -66,8 +66,10 @@ func caseGen() *rapid.Generator[Case] {
 		// a small palette of styles per case so that formats repeat
 		palette := rapid.SliceOfN(rapid.SampledFrom(Styles), 1, 3).Draw(t, "palette")
 		for i := 0; i < n; i++ {
-			kind := rapid.IntRange(0, 11).Draw(t, "kind")
-			if kind == 10 {
+			kind := rapid.IntRange(0, 12).Draw(t, "kind")
+			if kind == 12 {
+				c.Acts = append(c.Acts, Act{K: "realign", I: rapid.IntRange(0, 3).Draw(t, "col"), Key: rapid.IntRange(0, 3).Draw(t, "align")})
+			} else if kind == 10 {
 				c.Acts = append(c.Acts, Act{K: "restyle", Style: rapid.SampledFrom(append(append([]string{}, TextStyles...), "nope", "utf8-lihgt")).Draw(t, "restyle"), Reuse: rapid.Bool().Draw(t, "by-object"), I: rapid.SampledFrom([]int{0, 0, 1}).Draw(t, "on-copy")})
 			} else if kind == 11 {
 				// a style that names nothing: the render fails, every time the same way, and changes nothing
